@@ -3496,6 +3496,15 @@ fn validate_extension_declarations(
         }
 
         for sc in &decl.sectors_with_claims {
+            // A sector's claims are declared once per message: the term checks below use this
+            // declaration's new expiration, while the space summed here applies to the whole message.
+            if claim_space_by_sector.contains_key(&sc.sector_number) {
+                return Err(actor_error!(
+                    illegal_argument,
+                    "sector {} declared with claims more than once",
+                    sc.sector_number
+                ));
+            }
             // A claim may be declared at most once per sector: its space is summed below.
             let mut declared_claims = BTreeSet::new();
             for id in sc.maintain_claims.iter().chain(sc.drop_claims.iter()) {
@@ -3561,6 +3570,19 @@ fn validate_extension_declarations(
                         *maintain += maintain_delta;
                     })
                     .or_insert((claim.size.0, maintain_delta));
+            }
+        }
+    }
+    // A sector declared with claims must not also be extended through a plain sector list, which
+    // would escape the term checks made against the declaration that carries its claims.
+    for decl in &extensions {
+        for sector_number in claim_space_by_sector.keys() {
+            if decl.sectors.get(*sector_number) {
+                return Err(actor_error!(
+                    illegal_argument,
+                    "sector {} declared both with and without claims",
+                    sector_number
+                ));
             }
         }
     }
